@@ -15,10 +15,12 @@ import ParanoidModel.Driver.Hnp
 import ParanoidModel.Driver.Bsgs
 import ParanoidModel.Driver.EcdsaChecks
 import ParanoidModel.Driver.Nist
+import ParanoidModel.Driver.RsaAll
+import ParanoidModel.Driver.EcAll
 open Paranoid.Driver
 
 /-- all dispatchers, tried in order. -/
-def dispatchers : List Dispatcher := [basicOps, nt19Ops, ntheoryOps, factoringOps, rsaCheckOps, ecdsaOps, closedFormOps, rngOps, bmOps, bitseqOps, bookkeepingOps, suiteOps, ecOps, latticeOps, linalgOps, hnpOps, bsgsOps, ecdsaCheckOps, nistOps]
+def dispatchers : List Dispatcher := [basicOps, nt19Ops, ntheoryOps, factoringOps, rsaCheckOps, ecdsaOps, closedFormOps, rngOps, bmOps, bitseqOps, bookkeepingOps, suiteOps, ecOps, latticeOps, linalgOps, hnpOps, bsgsOps, ecdsaCheckOps, nistOps, rsaAllOps, ecAllOps]
 
 def respond (regs : List (String × String)) (line : String) : String :=
   let toks := ((line.trimAscii.toString.splitOn " ").filter (· ≠ "")).map fun t =>
